@@ -210,7 +210,8 @@ fn lattice_for(p: &Proj, lat_step: f64, lon_step: f64, max_dlon_cap: f64) -> Vec
     let mut v = Vec::new();
     for (i, &lat) in lats.iter().enumerate() {
         for (j, &dl) in dlons.iter().enumerate() {
-            let lon = p.lon_c + dl;
+            // longitudes as a user gives them: within (-180, 180], also when the domain straddles the antimeridian
+            let lon = crate::geo::wrap180(p.lon_c + dl);
             if !p.contains(lat, lon, max_dlon_cap) {
                 continue;
             }
